@@ -34,6 +34,15 @@ build_ws() { # $1 = workspace dir, $2 = profile
   fi
 }
 
+build_tsan() { # auxiliary: real-rayon bodies under ThreadSanitizer (nightly + build-std); optional
+  local log="$TGT/tmp/build_rayonh_tsan.log"
+  if ! (cd $ROOT/rayonh && RUSTFLAGS="--cfg fir_verif -Zsanitizer=thread" CARGO_TARGET_DIR=$TGT/rayonh-tsan \
+        cargo +nightly build -Zbuild-std --target x86_64-unknown-linux-gnu --release --offline >"$log" 2>&1); then
+    echo "note: ThreadSanitizer build of rayonh failed (auxiliary pass will be skipped); see $log" >&2
+    rm -f $TGT/rayonh-tsan/x86_64-unknown-linux-gnu/release/c08rayon
+  fi
+}
+
 needs_dbg() { case " $BOTH_PROFILES " in *" $1 "*) return 0;; *) return 1;; esac; }
 
 if [ "${1:-}" = "--setup" ]; then
@@ -42,6 +51,7 @@ if [ "${1:-}" = "--setup" ]; then
   build_ws loomh release
   build_ws loomh dbg
   build_ws rayonh release
+  build_tsan
   echo "setup ok"
   exit 0
 fi
@@ -67,5 +77,6 @@ if [ "$ID" = "C08" ]; then
   build_ws loomh release
   build_ws loomh dbg
   build_ws rayonh release
+  build_tsan
 fi
 exec "$TGT/harness/release/firmc" "$ID" "$TIER"
